@@ -48,7 +48,12 @@ the Go code and a concrete instance.
 14. `setTry_step`, `throw_dispatch`, `runQuantum_execHN`, `throw_correct`, `try_correct` —
     `try { … } catch e { … }` and `throw(msg)`: handler installation, unwinding to the handler's
     activation from any depth (handler record restore), the error object, the catch block.
-   (Proofs of 9–14: `Lemmas/SimH*.lean`; the simulation is combined in `SimHAll.allP`. From
+15. `compileMatch_frag`, `match_spec`, `match_cascade_vm`, `match_correct`, `match_stmt_spec`,
+    `match_stmt_correct` — `match` over int/bool/string literals with a default arm: the comparison
+    cascade (`Eq_Pop_Once`), the first arm that hits, the default; as an expression (arms may call
+    functions and nest further `match`es) and as a statement whose arms are statement blocks
+    (`break`/`continue`/`return`/`throw` inside an arm included; `compileStmts_gfrag` covers the code).
+   (Proofs of 9–15: `Lemmas/SimH*.lean`; the simulation is combined in `SimHAll.allP`. From
    section 9 on, VM runs are `execHN` — instruction sequences including `Core.Run`'s exception
    dispatch — and the states `mkS s calls mp k stk mem w` carry a world `w` = heap and output.)
 -/
@@ -1806,5 +1811,316 @@ example : ∃ K, ∀ quantum, K ≤ quantum → ∀ vfuel, ∃ s',
     obtain ⟨s', hrun, hst, hmp, hcalls, hstk⟩ := hK quantum hq vfuel
     exact ⟨s', hrun, by rw [hst]; exact hs, hmp, hcalls⟩
 end Example14
+
+/-! ## 15. `match` over literals with a default arm -/
+
+/-- **What `compileExpr` emits for `match c { l₁₁ | l₁₂ … => a₁, …, _ => d }`** (literal patterns
+`Frag.litE`: int, bool, string; arms and default in the fragment): with the control value on the
+stack, for every literal `Copy_Push l; Eq_Pop_Once; Not; JumpIfFalse caseᵢ` (`armTests`), then
+`Jump default`; the bodies `caseᵢ: Drop; code(aᵢ); Jump after` (`cgArms`); finally
+`default: Drop; code(d); Jump after; after:`. -/
+theorem compileMatch_frag (fuel : Nat) (sp : Span) (ty : Ty) (c : Expr) (arms : List (List Expr × Expr)) (d : Expr)
+    (cs : CState) (hs : Frag.okGE (.matchE sp ty c arms (some d)) = true)
+    (hd : Frag.cdE (.matchE sp ty c arms (some d)) ≤ fuel)
+    (hws : Frag.wsGE cs.scopes (φOf cs) (.matchE sp ty c arms (some d)) = true) :
+    let mod := cs.currModule
+    let ρ := ρS cs.scopes
+    let φ := φOf cs
+    let cc := cgE mod ρ φ c cs.labelMangle
+    let after := freshLabel mod cc.2 "match_after"
+    let ts := armTests mod sp arms after.2
+    let dfl := freshLabel mod ts.2.2 "match_default"
+    let bs := cgArms mod ρ φ sp after.1 arms ts.2.1 dfl.2
+    let cd := cgE mod ρ φ d bs.2
+    (compileExpr fuel (.matchE sp ty c arms (some d))).run cs =
+      ((), updS cs cs.loops
+        (cc.1 ++ ts.1 ++ [(.jump dfl.1, sp)] ++ bs.1 ++ [(.label dfl.1, sp), (.drop, sp)] ++ cd.1 ++
+          [(.jump after.1, sp), (.label after.1, sp)])
+        { envOf cs with lm := cd.2 }) := by
+  have h := compileExpr_gfrag fuel _ cs hs hd hws
+  rw [cgE] at h
+  exact h
+
+/-- **The specification's `match`** (`evalArms`/`anyLit`/`eqM`): after the control value `v`, the
+arms are tried in order, the literals of an arm left to right with the specification's equality
+(`litsHit`/`armsHit` compute the first hit); the result is that of the first arm that hits,
+otherwise that of the default arm — evaluated in the state after the control expression — or
+`timeout`, or an `unsupported` comparison (never for the fragment's values). -/
+theorem match_spec (cfg : Cfg) (fuel : Nat) (sp : Span) (ty : Ty) (c : Expr) (arms : List (List Expr × Expr))
+    (d : Expr) (st : St) (hl : ∀ a ∈ arms, ∀ l ∈ a.1, Frag.litE l = true) :
+    match evalExpr cfg fuel c st with
+    | (.error e, st1) => evalExpr cfg (fuel + 1) (.matchE sp ty c arms (some d)) st = (.error e, st1)
+    | (.ok v, st1) =>
+      evalExpr cfg (fuel + 1) (.matchE sp ty c arms (some d)) st = (.error .timeout, st1) ∨
+      (∃ msg, evalExpr cfg (fuel + 1) (.matchE sp ty c arms (some d)) st = (.error (.unsupported msg), st1)) ∨
+      (∃ i a f', arms[i]? = some a ∧ armsHit st1.heap v arms = some (some i) ∧ f' < fuel ∧
+        evalExpr cfg (fuel + 1) (.matchE sp ty c arms (some d)) st = evalExpr cfg f' a.2 st1) ∨
+      (armsHit st1.heap v arms = some none ∧ ∃ f', f' < fuel ∧
+        evalExpr cfg (fuel + 1) (.matchE sp ty c arms (some d)) st = evalExpr cfg f' d st1) := by
+  rw [evalExpr_matchE]
+  rcases evalExpr cfg fuel c st with ⟨r, st1⟩
+  cases r with
+  | error e => rfl
+  | ok v => exact evalArms_spec cfg arms fuel v d st1 hl
+
+/-- **The VM's comparison cascade** (`armTests`) with the control value `cv` on top of the stack:
+`Eq_Pop_Once` pops only the literal; the first arm with an equal literal is jumped to (its `case`
+label), with none the VM falls through to `Jump default`; the control value is still there —
+each body and the default start with `Drop`. -/
+theorem match_cascade_vm (G : GCtx) (A : Act) (hA : A.OK G) (sp : Span) (cv : SVal)
+    (stk : List SVal) (mem : List (Int × Val)) (w : World) (arms : List (List Expr × Expr)) (lm : LM) (ip : Nat)
+    (hl : ∀ a ∈ arms, ∀ l ∈ a.1, Frag.litE l = true) (hpl : Placed A.lab A.σ A.c ip (armTests G.mod sp arms lm).1) :
+    match armsHit w.heap cv.v arms with
+    | some (some i) => ∃ nm, (armTests G.mod sp arms lm).2.1[i]? = some nm ∧
+        Runs G.code G.lim G.s A.fn A.rest A.mp ip (cv :: stk) mem w (A.lab nm) (cv :: stk) mem w
+    | some none => Runs G.code G.lim G.s A.fn A.rest A.mp ip (cv :: stk) mem w
+        (ip + nI (armTests G.mod sp arms lm).1) (cv :: stk) mem w
+    | none => True :=
+  armTests_run G A hA sp cv stk mem w arms lm ip hl hpl
+
+/-- **`match` expressions are simulated** (`SimGE`, as in `call_expr_correct`): control expression,
+arm bodies and default may contain calls (and further `match`es); the specification's outcome —
+the value of the first arm that hits or of the default, a fatal error in the control expression or
+in the chosen body, an exception of a callee — is the VM's, after the same output; the bodies of the
+other arms are not executed (no output, no error of theirs). -/
+theorem match_correct (G : GCtx) (hG : G.OK) (fuel : Nat) (A : Act) (hA : A.OK G) (sp : Span) (ty : Ty) (c : Expr)
+    (arms : List (List Expr × Expr)) (d : Expr) (st : St)
+    (ip : Nat) (stk : List SVal) (mem : List (Int × Val)) (lm : LM) (scopes : CScopes) (vm : List (String × Nat))
+    (hs : Frag.okGE (.matchE sp ty c arms (some d)) = true)
+    (hws : Frag.wsGE scopes A.φ (.matchE sp ty c arms (some d)) = true)
+    (hT : ∀ x ∈ Frag.namesGE (.matchE sp ty c arms (some d)), x ∈ A.T)
+    (hpl : Placed A.lab A.σ A.c ip (cgE G.mod (ρS scopes) A.φ (.matchE sp ty c arms (some d)) lm).1)
+    (hrel : StRel G.mod A.T A.N A.σ G.lim A.mp scopes vm st.scopes mem) (hsp : SpecOK G A.mp st) :
+    SimGE G A ip (nI (cgE G.mod (ρS scopes) A.φ (.matchE sp ty c arms (some d)) lm).1) stk mem st
+      (match evalExpr G.cfg fuel c st with
+        | (.ok v, st1) => evalArms G.cfg fuel v arms (some d) st1
+        | (.error e, st1) => (.error e, st1)) := by
+  have h := call_expr_correct G hG (fuel + 1) A hA _ st ip stk mem lm scopes vm hs hws hT hpl hrel hsp
+  rwa [evalExpr_matchE] at h
+
+/-- **The specification's `match` statement**: the value of the chosen arm is discarded. -/
+theorem match_stmt_spec (cfg : Cfg) (fuel : Nat) (sp msp : Span) (ty : Ty) (c : Expr)
+    (arms : List (List Expr × Expr)) (dflt : Option Expr) (st : St) :
+    evalStmt cfg (fuel + 2) (.exprS sp (.matchE msp ty c arms dflt)) st =
+      match evalExpr cfg fuel c st with
+      | (.ok v, st1) =>
+        (match evalArms cfg fuel v arms dflt st1 with
+          | (.ok _, st2) => (.ok (), st2)
+          | (.error e, st2) => (.error e, st2))
+      | (.error e, st1) => (.error e, st1) := by
+  rw [evalStmt_exprS, evalExpr_matchE]
+  rcases evalExpr cfg fuel c st with ⟨r, st1⟩
+  cases r <;> rfl
+
+/-- **`match` statements are simulated** (`SimGS`, as in `gstmts_correct`): `match c { l… => { … } … _ => { … } }`
+of type null, the arm bodies and the default being statement blocks (`Frag.okGArmsS`), compiled to
+`code(c); tests; Jump default; caseᵢ: Drop; blockᵢ; Jump after; …; default: Drop; block; Jump after; after:`
+(`cgS`/`cgArmsS`). The chosen block runs in its own scope with the control value already dropped, so
+a `break`/`continue` inside an arm reaches the enclosing loop's labels with the operand stack of
+the statement's start and the specification's scopes (`inScope` pops the arm's scope), `return`
+reaches the cleanup label, an exception its handler; a completed arm jumps behind the `match`,
+where the relation holds for the `match`'s final counters. -/
+theorem match_stmt_correct (G : GCtx) (hG : G.OK) (fuel : Nat) (A : Act) (hA : A.OK G)
+    (loops : List (String × String)) (lscopes : CScopes) (d : Nat) (sp msp : Span) (ty : Ty) (c : Expr)
+    (arms : List (List Expr × Expr)) (db : Block) (env : CEnv) (spec : St)
+    (ip : Nat) (stk : List SVal) (mem : List (Int × Val))
+    (stmt : Stmt) (hstmt : stmt = .exprS sp (.matchE msp ty c arms (some (.blockE db))))
+    (hs : Frag.okGS (!loops.isEmpty) A.rt stmt = true) (hT : ∀ x ∈ Frag.identsGS stmt, x ∈ A.T)
+    (hws : Frag.wsGS G.mod A.src A.φ loops stmt env = true)
+    (hN : ∀ m ∈ codeVars (cgS G.mod A.src A.φ loops stmt env).1, A.N m)
+    (hpl : Placed A.lab A.σ A.c ip (cgS G.mod A.src A.φ loops stmt env).1)
+    (hd : 1 ≤ d) (hls : lscopes = env.scopes.drop d)
+    (hrel : GRel G A env.scopes env.vm spec.scopes mem) (hsp : SpecOK G A.mp spec) :
+    SimGS G A loops lscopes d ip (nI (cgS G.mod A.src A.φ loops stmt env).1) stk mem
+      (GRel G A (cgS G.mod A.src A.φ loops stmt env).2.scopes (cgS G.mod A.src A.φ loops stmt env).2.vm) spec
+      (match evalExpr G.cfg fuel c spec with
+        | (.ok v, st1) =>
+          (match evalArms G.cfg fuel v arms (some (.blockE db)) st1 with
+            | (.ok _, st2) => (.ok (), st2)
+            | (.error e, st2) => (.error e, st2))
+        | (.error e, st1) => (.error e, st1)) := by
+  subst hstmt
+  have h := (allP G hG (fuel + 2)).pgs A hA loops lscopes d _ env spec ip stk mem hs hT hws hN hpl hd hls hrel hsp
+  rwa [match_stmt_spec] at h
+
+section Example15
+private def gmatch (ty : Ty) (c : Expr) (arms : List (List Expr × Expr)) (d : Expr) : Expr :=
+  .matchE sp0 ty c arms (some d)
+
+/-- `match n { 0 | 1 => 10, 2 => 20 + n, _ => classify(n - 3) + 1 }` -/
+def clsE : Expr := gmatch .int (gv "n")
+  [ ([.int sp0 0, .int sp0 1], .int sp0 10), ([.int sp0 2], .infix sp0 .int .add (.int sp0 20) (gv "n")) ]
+  (.infix sp0 .int .add (gcall "classify" [.infix sp0 .int .sub (gv "n") (.int sp0 3)]) (.int sp0 1))
+/-- `fn classify(n: int) -> int { let r = match n { … }; r }` -/
+def clsStmts : List Stmt := [.letS sp0 "r" .int false .int clsE]
+def clsFd : FnDef := gfn "classify" ["n"] .int clsStmts (some (gv "r"))
+/-- `match n > 2 { true => match "b" { "a" => 1, "b" => classify(n) * 2, _ => 3 }, _ => 0 }`: a `match` on a
+boolean whose first arm is a `match` on a string, with a call in an arm. -/
+def wordE : Expr := gmatch .int (.infix sp0 .bool .gt (gv "n") (.int sp0 2))
+  [ ([.bool sp0 true], gmatch .int (.str sp0 "b")
+      [ ([.str sp0 "a"], .int sp0 1), ([.str sp0 "b"], .infix sp0 .int .mul (gcall "classify" [gv "n"]) (.int sp0 2)) ]
+      (.int sp0 3)) ]
+  (.int sp0 0)
+/-- `fn word(n: int) -> int { match n > 2 { … } }` -/
+def wordFd : FnDef := gfn "word" ["n"] .int [] (some wordE)
+private def gblk (ss : List Stmt) : Expr := .blockE (.mk sp0 .null ss none)
+/-- `let i = 0; let acc = 0;`
+`loop { i += 1;`
+`  match i { 1 | 2 => { acc += 10; } 3 => { continue; } 7 => { break; } _ => { if i > k { return acc; } acc += i; } }`
+`  acc += 1; }`: a `match` statement whose arms continue, leave and return from the enclosing loop. -/
+def walkStmts : List Stmt :=
+  [ .letS sp0 "i" .int false .int (.int sp0 0), .letS sp0 "acc" .int false .int (.int sp0 0),
+    .loopS sp0 (.mk sp0 .null [ gasg .add "i" (.int sp0 1),
+       .exprS sp0 (.matchE sp0 .null (gv "i")
+         [ ([.int sp0 1, .int sp0 2], gblk [gasg .add "acc" (.int sp0 10)]),
+           ([.int sp0 3], gblk [.cont sp0]),
+           ([.int sp0 7], gblk [.brk sp0]) ]
+         (some (gblk [gif (.infix sp0 .bool .gt (gv "i") (gv "k")) [.ret sp0 (some (gv "acc"))],
+           gasg .add "acc" (gv "i")]))),
+       gasg .add "acc" (.int sp0 1) ] none) ]
+/-- `fn walk(k: int) -> int { …; acc }` -/
+def walkFd : FnDef := gfn "walk" ["k"] .int walkStmts (some (gv "acc"))
+/-- `fn main() { println(classify(7)); println(word(5)); println(word(1)); println(walk(100)); println(walk(5)); }` -/
+def main3Stmts : List Stmt :=
+  [gprint [gcall "classify" [.int sp0 7]], gprint [gcall "word" [.int sp0 5]], gprint [gcall "word" [.int sp0 1]],
+   gprint [gcall "walk" [.int sp0 100]], gprint [gcall "walk" [.int sp0 5]]]
+def main3Fd : FnDef := gfn "main" [] .null main3Stmts none
+def progZ : Program :=
+  [{ name := "main", imports := [], singletons := [], globals := [], nImpls := 0, fns := [clsFd, wordFd, walkFd, main3Fd] }]
+
+/-- The whole program on the models themselves: the specification … -/
+example : (match runProgram { prog := progZ } 200 with | .ok out _ => out | _ => "?") = "12\n46\n0\n40\n33\n" := by
+  decide +kernel
+/-- … and the VM, which ends with a clean core. -/
+example : (match compile progZ "main" 100 with
+    | .ok c => (match runMain c {} 50 20000 with
+      | .ok s => (s.st.out, s.stack.length, s.mp, s.calls.length) | _ => ("?", 0, 0, 0))
+    | .error e => (e, 0, 0, 0)) = ("12\n46\n0\n40\n33\n", 0, 0, 0) := by
+  decide +kernel
+
+def φZ : String → Option String := fun n =>
+  if n = "classify" then some "@main.classify" else if n = "word" then some "@main.word"
+  else if n = "walk" then some "@main.walk" else none
+def symCls : SCode := cgFn "main" φZ clsFd clsStmts (some (gv "r")) [[]] [] []
+def symWord : SCode := cgFn "main" φZ wordFd [] (some wordE) [[]] [] []
+def symWalk : SCode := cgFn "main" φZ walkFd walkStmts (some (gv "acc")) [[]] [] []
+def symMain3 : SCode := cgFn "main" φZ main3Fd main3Stmts none [[]] [] []
+def codeZ : Code := [⟨"@main.classify", renameVars (relG symCls)⟩, ⟨"@main.word", renameVars (relG symWord)⟩,
+  ⟨"@main.walk", renameVars (relG symWalk)⟩, ⟨"@main.main", renameVars (relG symMain3)⟩]
+
+local instance (priority := high) : BEq PVal := ⟨pvalBeq⟩
+/-- The real compiler produces `codeZ` (kernel evaluation, instruction by instruction). -/
+example : (match compile progZ "main" 100 with
+    | .ok c => (c.fns.filter fun f => f.name != "@main.@init").map (fun f => (f.name, f.code))
+        == codeZ.map (fun f => (f.name, f.code))
+    | .error _ => false) = true := by decide +kernel
+
+def GZ : GCtx :=
+  ⟨{ prog := progZ }, codeZ, {}, "main", {}, fun g => g = "classify" ∨ g = "word" ∨ g = "walk", 6, 0⟩
+
+private theorem phiZ : PhiOK GZ φZ := by
+  intro name f h
+  unfold φZ at h
+  split at h
+  · rename_i hn; subst hn; cases h
+    exact ⟨by decide +kernel, Or.inl rfl, clsFd, rfl, rfl⟩
+  · split at h
+    · rename_i hn; subst hn; cases h
+      exact ⟨by decide +kernel, Or.inr (Or.inl rfl), wordFd, rfl, rfl⟩
+    · split at h
+      · rename_i hn; subst hn; cases h
+        exact ⟨by decide +kernel, Or.inr (Or.inr rfl), walkFd, rfl, rfl⟩
+      · cases h
+
+theorem fnOK_cls : FnOK GZ "classify" clsFd
+    ⟨renameVars (relG symCls), slotFn (relG symCls), labelIndex symCls, (· ∈ varNames (relG symCls)),
+      ["n", "r", "classify"], φZ, [[]], [], []⟩ clsStmts (gv "r") :=
+  fn_compiled_ok GZ clsFd clsStmts (gv "r") φZ [[]] [] [] ["n", "r", "classify"] (relG symCls) ⟨sp0, .int, rfl⟩
+    (by decide) (relocate_relG _ (by decide +kernel))
+    (by
+      have h : mangleFnName GZ.mod clsFd.name = "@main.classify" := by decide +kernel
+      rw [h]; simp [findCode, codeZ, GZ])
+    (by decide +kernel) (by decide +kernel) (by decide +kernel) (by decide +kernel)
+    (by decide +kernel) (by decide +kernel) (by decide +kernel) (by decide +kernel) (by decide +kernel)
+    (by decide +kernel) phiZ
+
+theorem fnOK_word : FnOK GZ "word" wordFd
+    ⟨renameVars (relG symWord), slotFn (relG symWord), labelIndex symWord, (· ∈ varNames (relG symWord)),
+      ["n", "classify"], φZ, [[]], [], []⟩ [] wordE :=
+  fn_compiled_ok GZ wordFd [] wordE φZ [[]] [] [] ["n", "classify"] (relG symWord) ⟨sp0, .int, rfl⟩
+    (by decide) (relocate_relG _ (by decide +kernel))
+    (by
+      have h : mangleFnName GZ.mod wordFd.name = "@main.word" := by decide +kernel
+      rw [h]; simp [findCode, codeZ, GZ])
+    (by decide +kernel) (by decide +kernel) (by decide +kernel) (by decide +kernel)
+    (by decide +kernel) (by decide +kernel) (by decide +kernel) (by decide +kernel) (by decide +kernel)
+    (by decide +kernel) phiZ
+
+theorem fnOK_walk : FnOK GZ "walk" walkFd
+    ⟨renameVars (relG symWalk), slotFn (relG symWalk), labelIndex symWalk, (· ∈ varNames (relG symWalk)),
+      ["k", "i", "acc"], φZ, [[]], [], []⟩ walkStmts (gv "acc") :=
+  fn_compiled_ok GZ walkFd walkStmts (gv "acc") φZ [[]] [] [] ["k", "i", "acc"] (relG symWalk) ⟨sp0, .int, rfl⟩
+    (by decide) (relocate_relG _ (by decide +kernel))
+    (by
+      have h : mangleFnName GZ.mod walkFd.name = "@main.walk" := by decide +kernel
+      rw [h]; simp [findCode, codeZ, GZ])
+    (by decide +kernel) (by decide +kernel) (by decide +kernel) (by decide +kernel)
+    (by decide +kernel) (by decide +kernel) (by decide +kernel) (by decide +kernel) (by decide +kernel)
+    (by decide +kernel) phiZ
+
+theorem gz_ok : GZ.OK := by
+  refine ⟨?_, by decide, by decide, rfl, rfl, rfl⟩
+  intro g fd hK hfind
+  rcases hK with rfl | rfl | rfl
+  · have h : findFn GZ.cfg.prog GZ.mod "classify" = some clsFd := rfl
+    rw [h] at hfind; cases hfind
+    exact ⟨_, _, _, fnOK_cls⟩
+  · have h : findFn GZ.cfg.prog GZ.mod "word" = some wordFd := rfl
+    rw [h] at hfind; cases hfind
+    exact ⟨_, _, _, fnOK_word⟩
+  · have h : findFn GZ.cfg.prog GZ.mod "walk" = some walkFd := rfl
+    rw [h] at hfind; cases hfind
+    exact ⟨_, _, _, fnOK_walk⟩
+
+theorem fnOK_main3 : FnVoidOK GZ "main" main3Fd
+    ⟨renameVars (relG symMain3), slotFn (relG symMain3), labelIndex symMain3, (· ∈ varNames (relG symMain3)),
+      ["println", "classify", "word", "walk"], φZ, [[]], [], []⟩ main3Stmts :=
+  fn_void_compiled_ok GZ main3Fd main3Stmts φZ [[]] [] [] ["println", "classify", "word", "walk"] (relG symMain3)
+    ⟨sp0, .null, rfl⟩ (by decide) (relocate_relG _ (by decide +kernel))
+    (by
+      have h : mangleFnName GZ.mod main3Fd.name = "@main.main" := by decide +kernel
+      rw [h]; simp [findCode, codeZ, GZ])
+    (by decide +kernel) (by decide +kernel) (by decide +kernel) (by decide +kernel)
+    (by decide +kernel) (by decide +kernel) (by decide +kernel) phiZ
+
+private theorem spec_main3 :
+    okOut "12\n46\n0\n40\n33\n" (callBody GZ.cfg 200 sp0 GZ.mod main3Fd.params main3Fd.body [] stX) = true := by
+  decide +kernel
+
+/-- **The program through the theorems**: `run` on the compiled code, started on `@main.main`, ends with
+`ok` and the specification's output: `classify(7)` recurses through the default arm twice and ends in
+the two-literal arm `0 | 1`; `word(5)` takes the `true` arm, whose nested string `match` hits its
+second arm and calls `classify(5)` (arm `2` after one recursion); `word(1)` takes the default;
+`walk(100)` leaves its loop from the arm `7 => { break; }` after the arm `3 => { continue; }` skipped
+an increment, `walk(5)` returns from inside the default arm. -/
+example : ∃ K, ∀ quantum, K ≤ quantum → ∀ vfuel, ∃ s',
+    run codeZ {} quantum none (vfuel + 1) { calls := [⟨"@main.main", 0⟩] } = .ok s' ∧
+    s'.st.out = "12\n46\n0\n40\n33\n" ∧ s'.mp = 0 ∧ s'.calls = [] := by
+  obtain ⟨fuel, hfuel⟩ : ∃ n : Nat, n = 200 := ⟨200, rfl⟩
+  have h := entry_run GZ gz_ok fuel "main" main3Fd _ main3Stmts fnOK_main3 sp0 stX 0 [] []
+    ⟨trivial, rfl, rfl, by decide⟩ (by decide) (by decide) (by decide)
+  subst hfuel
+  have hs := spec_main3
+  rcases hev : callBody GZ.cfg 200 sp0 GZ.mod main3Fd.params main3Fd.body [] stX with ⟨res, st'⟩
+  rw [hev] at h hs
+  cases res with
+  | error e => simp [okOut] at hs
+  | ok v =>
+    simp only [okOut, beq_iff_eq] at hs
+    obtain ⟨K, hK⟩ := h
+    refine ⟨K, fun quantum hq vfuel => ?_⟩
+    obtain ⟨s', hrun, hst, hmp, hcalls, hstk⟩ := hK quantum hq vfuel
+    exact ⟨s', hrun, by rw [hst]; exact hs, hmp, hcalls⟩
+end Example15
 
 end HmsProofs.C01VM
